@@ -9,6 +9,22 @@ package cputensor
 //@ define bdim(d1, d2, k, n) := ite(k - (n - len(d1)) >= 0 && k - (n - len(d2)) >= 0, imax(d1[k-(n-len(d1))], d2[k-(n-len(d2))]),
 //@                              ite(k - (n - len(d1)) >= 0, d1[k-(n-len(d1))], d2[k-(n-len(d2))]))
 
+// the counter generator of the identity matrix: the k-th call yields 1 exactly when k is a multiple of n+1, which in
+// row-major order over n x n is the diagonal
+//@ lemma modDiag: forallI(a, forallI(b, forallI(n, imp(0 <= a && a < n && 0 <= b && b < n, ((a*n + b) % (n+1) == 0) == (a == b)))))
+//@ func eyeElemGenerator
+//@   requires n > 0
+//@   returns fresh
+//@   modifies genIdx(res)
+//@   ensures res != nil && genRank(res) == 2 && genShape(res)[0] == n && genShape(res)[1] == n && genIdx(res) == zeroIdx()
+//@   ensures forallJ(Q, genAt(res, Q) == boxReal(ite(Q[0] == Q[1], 1.0, 0.0)))
+//@ func eyeElemGenerator#0
+//@   implements cputensor.initializerFunc
+//@   uses modDiag
+//@   modifies state
+//@   yields genRank(self) == 2 && genShape(self)[0] == n && genShape(self)[1] == n && forallJ(Q, genAt(self, Q) == boxReal(ite(Q[0] == Q[1], 1.0, 0.0)))
+//@   invariant imp(genIdx(self)[0-1] == 0, state == genIdx(self)[0]*n + genIdx(self)[1])
+
 /* ---------------- cputensor_helpers.go ---------------- */
 
 //@ func targetBroadcastDims
@@ -314,13 +330,17 @@ package cputensor
 
 //@ func constTensor
 //@   requires forall(k, 0, len(dims), dims[k] > 0)
-//@   assumed L2 initWith.fill with a constant generator; bounded stand-in: rac TestConstructors
+//@   uses filledWF, filledEl, wfExt
 //@   returns fresh
 //@   ensures t != nil && hasShape(t, dims) && forallJ(J, imp(inb(t, J), el(t, J) == value))
+// the constant generator: every element is value, over the enumeration shape dims
+//@ func constTensor#0
+//@   implements cputensor.initializerFunc
+//@   yields genRank(self) == len(dims) && sameOn(genShape(self), idx(dims), 0, len(dims)) && forallJ(Q, genAt(self, Q) == boxReal(value))
 
 //@ func eyeMatrix
 //@   requires n > 0
-//@   assumed L2 initWith.fill with the counter generator (non-linear: c % (n+1) == 0 iff row == col); bounded stand-in: rac TestConstructors
+//@   uses filledWF, filledEl, wfExt
 //@   returns fresh
 //@   ensures t != nil && rank(t) == 2 && dim(t, 0) == n && dim(t, 1) == n && forallJ(J, imp(inb(t, J), el(t, J) == ite(J[0] == J[1], 1.0, 0.0)))
 
@@ -524,36 +544,55 @@ package cputensor
 
 //@ define validUpTo(J, S, k) := forall(j, 0, k, 0 <= J[j] && J[j] < S[j])
 //@ define zeroFrom(J, k, n) := forall(j, k, n, J[j] == 0)
-//@ define sameOutside(A, B, n) := forallI(j, imp(j < 0 || j >= n, A[j] == B[j]))
-// odoK(A, B, S, k): B is the successor of A as a k-digit odometer with digit ranges S (last digit fastest)
+//@ define sameOutside(A, B, n) := forallI(j, imp(j < 0-1 || j >= n, A[j] == B[j]))
+// odoK(A, B, S, k): B is the successor of A as a k-digit odometer with digit ranges S (last digit fastest); position -1 is
+// the unbounded overflow digit: it counts how often the odometer has wrapped (a generator is exhausted once it is not 0)
 //@ predicate allMax(J Idx, S Idx, j Int, k Int) := forall(m, j+1, k, J[m] == S[m] - 1)
-//@ predicate odoK(A Idx, B Idx, S Idx, k Int) := forall(j, 0, k, B[j] == ite(allMax(A, S, j, k), ite(A[j] < S[j] - 1, A[j] + 1, 0), A[j]))
+//@ predicate odoK(A Idx, B Idx, S Idx, k Int) := forall(j, 0-1, k, B[j] == ite(allMax(A, S, j, k), ite(j >= 0 && A[j] >= S[j] - 1, 0, A[j] + 1), A[j]))
 // Filled(f, d, S, k, n, P): the sub-tree d at level k, reached by the path P[0..k), holds at every leaf path Q the
 // element genAt(f, Q) of the generator f
 //@ predicate Filled(f Fn, d Data, S Idx, k Int, n Int, P Idx) := ite(k >= n, d == genAt(f, P), isS(d) && slen(d) == S[k] && forall(i, 0, S[k], Filled(f, child(d, i), S, k+1, n, upd(P, k, i))))
 
-// The protocol of an element generator: called at abstract index genJ it returns the element of that index; the ghost
-// index then advances to its odometer successor (ghost step of the protocol).
+// The protocol of an element generator: every generator f has a ghost abstract index genIdx(f), which starts at 0 where the
+// closure is created. Called at index J it returns the element genAt(f, J); the index then advances to its odometer
+// successor over the enumeration shape genShape(f) (ghost step of the protocol).
 //@ abstract initializerFunc() (v any)
-//@   modifies genJ
-//@   requires validUpTo(genJ, genShape(self), genRank(self))
-//@   ensures v == genAt(self, old(genJ))
-//@   ensures odoK(old(genJ), genJ, genShape(self), genRank(self)) && sameOutside(old(genJ), genJ, genRank(self)) @ghost
+//@   modifies genIdx(self)
+//@   requires genIdx(self)[0-1] == 0 && validUpTo(genIdx(self), genShape(self), genRank(self))
+//@   ensures v == genAt(self, old(genIdx(self)))
+//@   ensures odoK(old(genIdx(self)), genIdx(self), genShape(self), genRank(self)) && sameOutside(old(genIdx(self)), genIdx(self), genRank(self)) @ghost
 
 // fill at level k = offOf(dims): on entry the generator stands at a path prefix followed by zeros; on exit the sub-tree is
 // filled with the generator's elements in row-major order and the generator's first k digits have advanced by one
 //@ func CPUTensor.initWith#0
 //@   requires data != nil && initFunc != nil && forall(k, 0, len(dims), dims[k] >= 1)
 //@   requires endOf(dims) == genRank(initFunc) && sameOn(arrOf(dims), genShape(initFunc), 0, endOf(dims))
-//@   requires validUpTo(genJ, genShape(initFunc), offOf(dims)) && zeroFrom(genJ, offOf(dims), endOf(dims))
-//@   modifies *data, genJ
-//@   ensures zeroFrom(genJ, offOf(dims), endOf(dims)) && sameOutside(old(genJ), genJ, endOf(dims))
-//@   ensures odoK(old(genJ), genJ, genShape(initFunc), offOf(dims))
-//@   ensures Filled(initFunc, *data, genShape(initFunc), offOf(dims), endOf(dims), old(genJ))
-//@   loop 0 invariant 0 <= i && i <= len(rows) && len(rows) == genShape(initFunc)[offOf(dims) - 1] && sameOutside(old(genJ), genJ, endOf(dims))
-//@   loop 0 invariant imp(i < len(rows), genJ == upd(old(genJ), offOf(dims) - 1, i))
-//@   loop 0 invariant imp(i == len(rows), zeroFrom(genJ, offOf(dims) - 1, endOf(dims)) && odoK(old(genJ), genJ, genShape(initFunc), offOf(dims) - 1))
-//@   loop 0 invariant forall(j, 0, i, Filled(initFunc, rows[j], genShape(initFunc), offOf(dims), endOf(dims), upd(old(genJ), offOf(dims) - 1, j)))
+//@   requires genIdx(initFunc)[0-1] == 0 && validUpTo(genIdx(initFunc), genShape(initFunc), offOf(dims)) && zeroFrom(genIdx(initFunc), offOf(dims), endOf(dims))
+//@   modifies *data, genIdx(initFunc)
+//@   ensures zeroFrom(genIdx(initFunc), offOf(dims), endOf(dims)) && sameOutside(old(genIdx(initFunc)), genIdx(initFunc), endOf(dims))
+//@   ensures odoK(old(genIdx(initFunc)), genIdx(initFunc), genShape(initFunc), offOf(dims))
+//@   ensures Filled(initFunc, *data, genShape(initFunc), offOf(dims), endOf(dims), old(genIdx(initFunc)))
+//@   loop 0 invariant 0 <= i && i <= len(rows) && len(rows) == genShape(initFunc)[offOf(dims) - 1] && sameOutside(old(genIdx(initFunc)), genIdx(initFunc), endOf(dims))
+//@   loop 0 invariant imp(i < len(rows), genIdx(initFunc) == upd(old(genIdx(initFunc)), offOf(dims) - 1, i))
+//@   loop 0 invariant imp(i == len(rows), zeroFrom(genIdx(initFunc), offOf(dims) - 1, endOf(dims)) && odoK(old(genIdx(initFunc)), genIdx(initFunc), genShape(initFunc), offOf(dims) - 1))
+//@   loop 0 invariant forall(j, 0, i, Filled(initFunc, rows[j], genShape(initFunc), offOf(dims), endOf(dims), upd(old(genIdx(initFunc)), offOf(dims) - 1, j)))
+
+// initWith: the data tree of t (whose dims are set) holds the generator's elements in row-major order
+//@ func CPUTensor.initWith
+//@   unpublished t
+//@   requires t != nil && initFunc != nil && forall(k, 0, len(t.dims), t.dims[k] >= 1)
+//@   requires len(t.dims) == genRank(initFunc) && sameOn(arrOf(t.dims), genShape(initFunc), 0, len(t.dims))
+//@   requires zeroFrom(genIdx(initFunc), 0-1, len(t.dims))
+//@   modifies t.data, genIdx(initFunc)
+//@   ensures Filled(initFunc, t.data, genShape(initFunc), 0, len(t.dims), old(genIdx(initFunc)))
+
+// every element a generator yields is a float64
+//@ predicate genFloat(f Fn) := forallJ(Q, isF(genAt(f, Q)))
+// a filled tree is well-formed, and its leaf at J is the generator's element at J (induction over the nesting depth)
+//@ define filledWFBody(lo, hi) := forallF(f, forallD(d, forallJ(S, forallJ(P, imp(0 <= lo && Filled(f, d, S, lo, hi, P) && genFloat(f), WF(d, S, lo, hi))))))
+//@ induct filledWF: filledWFBody
+//@ define filledElBody(lo, hi) := forallF(f, forallD(d, forallJ(S, forallJ(P, forallJ(J, imp(0 <= lo && Filled(f, d, S, lo, hi, P) && genFloat(f) && inRange(J, S, lo, hi), leafv(d, J, lo) == fval(genAt(f, mix(P, J, lo, hi)))))))))
+//@ induct filledEl: filledElBody
 
 // which element of t a position of the broadcast result reads depends on the result only through its shape
 //@ lemma projSame: forallT(t, forallT(p, forallT(q, forallJ(J, imp(sameShape(p, q) && rank(t) <= rank(p), el(t, proj(t, p, J)) == el(t, proj(t, q, J)))))))
